@@ -735,7 +735,10 @@ impl ValueSetT for ValueSetOauthClaimMap {
     }
 
     fn generate_idx_eq_keys(&self) -> Vec<String> {
-        self.map
+        // A group may be mapped by several claims: each key must be listed once, the index
+        // diff of an entry relies on unique keys.
+        let mut keys: Vec<String> = self
+            .map
             .keys()
             .cloned()
             .chain(
@@ -743,7 +746,10 @@ impl ValueSetT for ValueSetOauthClaimMap {
                     mapping.values.keys().map(|u| u.as_hyphenated().to_string())
                 }),
             )
-            .collect()
+            .collect();
+        keys.sort_unstable();
+        keys.dedup();
+        keys
     }
 
     fn syntax(&self) -> SyntaxType {
